@@ -203,11 +203,11 @@ def genCent (cfg : Cfg) (alphaC : Tri Rat) (hosts : List Host) : CentOut :=
   { keep := keep
     gals := fun T => fill (mkCent cfg (alphaC.get T)) T.code hosts keep }
 
-/-- `gen_sats` with `keep_cent` given per particle (`kcs`, same length as `parts`) -/
-def genSats (cfg : Cfg) (alphaS : Tri Rat) (parts : List Part) (kcs : List Int) : CentOut :=
-  let keep := (parts.zip kcs).map (fun pk => keepCode cfg.en (satWidths pk.1 pk.2) pk.1.r)
+/-- `gen_sats`; each particle row comes with its `keep_cent[i]` -/
+def genSats (cfg : Cfg) (alphaS : Tri Rat) (pks : List (Part × Int)) : CentOut :=
+  let keep := pks.map (fun pk => keepCode cfg.en (satWidths pk.1 pk.2) pk.1.r)
   { keep := keep
-    gals := fun T => fill (mkSat cfg (alphaS.get T)) T.code parts keep }
+    gals := fun T => fill (fun pk => mkSat cfg (alphaS.get T) pk.1) T.code pks keep }
 
 /-- `keep_cent[subsample['pinds']]` (numpy fancy indexing: negative wraps once, else IndexError) -/
 def gatherKeep (keepCent : List Nat) (pinds : List Int) : Except Fault (List Int) :=
@@ -232,7 +232,7 @@ def genGalCat (cfg : Cfg) (alphaC alphaS : Tri Rat) (hosts : List Host) (parts :
     Except Fault CatOut := do
   let c := genCent cfg alphaC hosts
   let kcs ← gatherKeep c.keep (parts.map (·.kc))
-  let s := genSats cfg alphaS parts kcs
+  let s := genSats cfg alphaS (parts.zip kcs)
   pure { keepCent := c.keep
          keepSat := s.keep
          cat := fun T => if cfg.en.get T then
@@ -332,7 +332,7 @@ def handle : List String → String
     | _, _, _ => "bad-op"
   | "sats" :: en :: rsd :: origin :: inv :: lbox :: al :: rows =>
     match parseCfg? en rsd origin inv lbox, parseTri? al, rows.mapM parsePart? with
-    | some cfg, some al, some parts => showCentOut (genSats cfg al parts (parts.map (·.kc)))
+    | some cfg, some al, some parts => showCentOut (genSats cfg al (parts.map (fun p => (p, p.kc))))
     | _, _, _ => "bad-op"
   | "cat" :: en :: rsd :: origin :: inv :: lbox :: ac :: as :: nh :: rows =>
     match parseCfg? en rsd origin inv lbox, parseTri? ac, parseTri? as, nh.toNat? with
